@@ -20,6 +20,8 @@ import (
 type fileAccess interface {
 	// get returns status "inuse" | "free" | "dangling".
 	get(ref obj.Ref) (v obj.Value, body string, status string, err error)
+	// lookup resolves a reference for /DecodeParms (no decryption needed).
+	lookup(ref obj.Ref) (obj.Value, bool)
 }
 
 // ---- the independent strict parser ----------------------------------------
@@ -98,6 +100,8 @@ func leadingCrypt(d obj.Dict, res strict.Resolver) string {
 func (sf *strictFile) resolver() strict.Resolver {
 	return func(r obj.Ref) (obj.Value, bool) { return sf.f.Lookup(r) }
 }
+
+func (sf *strictFile) lookup(ref obj.Ref) (obj.Value, bool) { return sf.f.Lookup(ref) }
 
 func (sf *strictFile) get(ref obj.Ref) (obj.Value, string, string, error) {
 	f := sf.f
@@ -201,6 +205,18 @@ func openLib(data []byte, password string) (*libFile, error) {
 	return &libFile{r}, nil
 }
 
+func (lf *libFile) lookup(r obj.Ref) (obj.Value, bool) {
+	y, err := lf.r.Get(pdf.NewReference(r.Num, r.Gen), true)
+	if err != nil || y == nil {
+		return obj.Null{}, false
+	}
+	if st, isStm := y.(*pdf.Stream); isStm {
+		d, _ := shared.FromPDF(st.Dict).(obj.Dict)
+		return &obj.Stream{Dict: d}, true
+	}
+	return shared.FromPDF(y), true
+}
+
 func (lf *libFile) get(ref obj.Ref) (obj.Value, string, string, error) {
 	x, err := lf.r.Get(pdf.NewReference(ref.Num, ref.Gen), true)
 	if err != nil {
@@ -242,7 +258,7 @@ func (lf *libFile) get(ref obj.Ref) (obj.Value, string, string, error) {
 // ---- projections -----------------------------------------------------------
 
 // valueOf converts what get returned into the vocabulary of the specification.
-func valueOf(v obj.Value, body string) Val {
+func valueOf(fa fileAccess, v obj.Value, body string) Val {
 	if st, ok := v.(*obj.Stream); ok {
 		id, cf := body, "default"
 		for i := len(body) - 1; i >= 0; i-- {
@@ -251,7 +267,7 @@ func valueOf(v obj.Value, body string) Val {
 				break
 			}
 		}
-		return fromStreamDict(st.Dict, id, cf)
+		return fromStreamDict(st.Dict, id, cf, fa.lookup)
 	}
 	return fromObj(v)
 }
@@ -273,7 +289,7 @@ func sourceGraph(fa fileAccess, nums []int) (Graph, error) {
 			if r, isRef := v.(obj.Ref); isRef {
 				g[n] = Node{K: "ref", To: numOf(r)}
 			} else {
-				val := valueOf(v, body)
+				val := valueOf(fa, v, body)
 				g[n] = Node{K: "val", V: &val}
 			}
 		}
@@ -314,7 +330,7 @@ func targetObjects(fa fileAccess, vals []Val, stop map[int]bool) ([]DstObj, erro
 		if status != "inuse" {
 			continue // a reference to an undefined object: not in DOMAIN D
 		}
-		val := valueOf(v, body)
+		val := valueOf(fa, v, body)
 		out = append(out, DstObj{N: n, V: val})
 		if !stop[n] {
 			push(val)
